@@ -473,4 +473,96 @@ theorem gen_enc_close_quic_eq (kind : EKind) (fty : ErrFty) (reason : Bytes) :
     enc_close_quic kind fty reason = encBytes (Frame.closeQuic kind fty reason) := by
   codec_eq [enc_close_quic]
 
+/-! ### parsers of the data frames: the generated definition is the *header* parser (`be_crypto_frame`,
+`stream_frame_with_flag`, `datagram_frame_with_flag`); the split of the data that follows is the
+corresponding arm of `complete_frame` (io.rs), written out on the right-hand side. -/
+
+theorem gen_dec_crypto_eq (bs : Bytes) :
+    decBody .crypto bs = (dec_crypto bs).bind fun h r =>
+      if r.length < h.2 then .err .incomplete else .ok (.crypto h.1 h.2 (r.take h.2)) (r.drop h.2) := by
+  simp only [decBody, dec_crypto]
+  cases pVarint bs with
+  | ok off r =>
+    simp only [Res.bind]
+    cases pVarint r with
+    | ok len r2 => simp only [Res.bind]; split <;> rfl
+    | err _ => rfl
+    | panic _ => rfl
+  | err _ => rfl
+  | panic _ => rfl
+
+theorem gen_dec_stream_eq (offBit lenBit fin : Bool) (bs : Bytes) :
+    decBody (.stream offBit lenBit fin) bs = (dec_stream offBit lenBit fin bs).bind fun h r =>
+      if r.length < h.2.2.1 then .err .incomplete
+      else .ok (.stream h.1 h.2.1 h.2.2.1 h.2.2.2.1 h.2.2.2.2 (r.take h.2.2.1)) (r.drop h.2.2.1) := by
+  simp only [decBody, dec_stream]
+  cases pVarint bs with
+  | ok sid r =>
+    simp only [Res.bind]
+    cases offBit
+    · simp only [Bool.false_eq_true, if_false]
+      cases lenBit
+      · simp only [Bool.false_eq_true, if_false]; split <;> rfl
+      · simp only [if_true]
+        cases pVarint r with
+        | ok len r2 => simp only []; split <;> rfl
+        | err _ => rfl
+        | panic _ => rfl
+    · simp only [if_true]
+      cases pVarint r with
+      | ok off r1 =>
+        simp only []
+        cases lenBit
+        · simp only [Bool.false_eq_true, if_false]; split <;> rfl
+        · simp only [if_true]
+          cases pVarint r1 with
+          | ok len r2 => simp only []; split <;> rfl
+          | err _ => rfl
+          | panic _ => rfl
+      | err _ => rfl
+      | panic _ => rfl
+  | err _ => rfl
+  | panic _ => rfl
+
+theorem gen_dec_datagram_eq (withLen : Bool) (bs : Bytes) :
+    decBody (.datagram withLen) bs = (dec_datagram withLen bs).bind fun h r =>
+      if h.1 then (if h.2 > r.length then .err .incomplete else .ok (.datagram true h.2 (r.take h.2)) (r.drop h.2))
+      else .ok (.datagram false h.2 r) [] := by
+  cases withLen
+  · rfl
+  · simp only [decBody, dec_datagram, if_true]
+    cases pVarint bs with
+    | ok len r => rfl
+    | err _ => rfl
+    | panic _ => rfl
+
+theorem gen_dec_close_quic_eq :
+    dec_close_quic = decBody (.connectionClose false) := by
+  funext bs
+  simp only [dec_close_quic, decBody, pErrFty]
+  cases pVarint bs with
+  | ok code r =>
+    simp only [Res.bind]
+    cases errKindOfNat code with
+    | none => rfl
+    | some kind =>
+      simp only []
+      cases pVarint r with
+      | ok v r1 => simp only []; cases frameTypeOfNat v <;> rfl
+      | err _ => rfl
+      | panic _ => rfl
+  | err _ => rfl
+  | panic _ => rfl
+
+/-- the counted `while` loop of `ack_frame_with_ecn` is the model's `pRanges` -/
+theorem gen_dec_ack_loop_eq (n : Nat) : dec_ack_loop n = pRanges n := by
+  induction n with
+  | zero => rfl
+  | succ n ih => funext bs; simp only [dec_ack_loop, pRanges, ih]
+
+theorem gen_dec_ack_eq (ecn : Bool) :
+    dec_ack ecn = decBody (.ack ecn) := by
+  funext bs
+  simp only [dec_ack, decBody, gen_dec_ack_loop_eq]
+
 end GmQuic.Codec
